@@ -830,6 +830,10 @@ def run_property(prop, tier, seed):
             "shape check of their source (a changed shape => INCONCLUSIVE); the model's circle of every catalogue entry is compared "
             "with the real crate's rendering of that entry on every run (%d entries, %d disagreements)"
             % (tr.circle_validation["entries"], tr.circle_validation["disagreements"]))
+    if prop == "C13":
+        # the character tables are loaded (and validated) by the shared set-up but no C13 query reads them
+        out["functions"] = [f for f in out["functions"] if "circle_map" in f or "CircleArt" in f]
+        out["assumptions"] = [a for a in out["assumptions"] if "O12.3" in a]
     out["wall_s"] = round(time.time() - t0, 1)
     out["native_build_s"] = round(tr.native.build_s, 1)
     return out
